@@ -132,6 +132,10 @@ def run(ctx):
     for ln in lines[:: max(1, len(lines) // 3)][:3]:
         ctx.sample({k: v for k, v in ln.items() if k != "oid"})
     bad = ctx.tlc_validate("Trace_C04", "Trace.cfg", [{k: v for k, v in ln.items() if k != "note"} for ln in lines])
+    ctx.selftest("Trace_C04", "Trace.cfg", [{k: v for k, v in ln.items() if k not in ('note',)} for ln in lines if ln["oid"] not in bad and (True)], [
+        ("dev", lambda l: dict(l, dev_milli=1500)),
+        ("constant", lambda l: dict(l, value=[[l["value"][0][0] + 1, l["value"][0][1]]] + l["value"][1:]) if l["what"] == "rule" else None),
+        ("finite", lambda l: dict(l, finite=False) if l["what"] == "rule" else None)])
     for oid, clause in bad.items():
         ln = uniq[oid]
         if ln["what"] == "rule":
